@@ -125,7 +125,17 @@ def patch():
 
     def copy_file(src, dst, *a, **kw):
         if INJ.active:
-            INJ.tick(["copy"])
+            s = slot_of(dst)
+            if s is not None and os.path.isfile(str(src)):
+                # a byte-wise copy ONTO a generation slot (seeded/C14_r5; the unchanged tree renames there) can fail
+                # half-way: the failure point "copyslot-mid" leaves the partly written file behind
+                INJ.tick(["copyslot", s])
+                data = open(str(src), "rb").read()
+                with open(str(dst), "wb") as g:
+                    g.write(data[:max(1, len(data) // 2)])
+                INJ.tick(["copyslot-mid", s])
+            else:
+                INJ.tick(["copy"])
         return _orig["copy_file"](src, dst, *a, **kw)
 
     def make_root(root, is_zip, *a, **kw):
